@@ -39,9 +39,17 @@ def main(tier, replay=None):
         return {'kind': 'row', 'in': {'i': i}, 'out': {'label': cps(lab), 'back': cell.row_label_to_index(lab)}}
 
     def ext_obs(s):
+        first = cell.extract_label(s)
+        if isinstance(first, list):
+            # the caller does what it likes with the list it was given; the next decomposition is a fresh one
+            first.reverse()
+            first.append(None)
+            del first[:1]
         r = cell.extract_label(s)
         out = {'n': len(r), 'ri': 0, 'ci': 0, 'rabs': False, 'cabs': False, 're': []}
-        if len(r) == 2:
+        if len(r) == 2 and not all(hasattr(x, 'index') and hasattr(x, 'is_absolute') for x in r):
+            out['ri'] = out['ci'] = -999        # two things, but not a row part and a column part
+        elif len(r) == 2:
             row, col = r
             out.update(ri=row.index, ci=col.index, rabs=bool(row.is_absolute), cabs=bool(col.is_absolute),
                        re=cps(cell.to_label(row, col)))
@@ -85,6 +93,14 @@ def main(tier, replay=None):
             for ca in ('', '$'):
                 for ra in ('', '$'):
                     labs.append(ca + L + ra + rw)
+    # labels that are also the names of supported functions (LOG10, ATAN2, ...), in every marker pattern and case
+    import re as _re
+    for name in core.builtins_constant()[0]:
+        m = _re.match(r'^([A-Za-z]+)([1-9][0-9]*)$', name)
+        if m:
+            for ca in ('', '$'):
+                for ra in ('', '$'):
+                    labs += [ca + m.group(1) + ra + m.group(2), ca + m.group(1).lower() + ra + m.group(2)]
     obs += [ext_obs(s) for s in labs]
     non = list(NEAR)
     alphabet = 'A1$a0 :.-b9Z\n'
